@@ -24,6 +24,9 @@ func init() {
 		Technique: "recover containment, return-verdict table by phi-refined dominance facts and assumption pruning, store provenance, must-precede ordering",
 		Trusted:   "go/types+go/ssa; libp2p-pubsub validator contract",
 		Run:       runC11,
+		Imports: []Import{
+			{From: "C01.d", As: "C11.f", Why: "the subscriber ignores (does not reject, does not penalise the sender of) a message whose verification failed softly: that rests on Verify keeping the soft flag of the header type's own verdict and setting it for every non-adjacent failure"},
+		},
 	})
 }
 
